@@ -177,3 +177,41 @@ func init() {
 		fmt.Fprintln(os.Stderr, "finals", finals)
 	})
 }
+
+// TB: debugging entry point for Tier B: run TA_MRO (with `src comp "fake"` stages) under real mrp/mrjob.
+// TB_SIGNALS=INT@300,KILL@200  TB_FAULT=jobkey:kind  TA_VDR=mode
+func init() {
+	register("TB", func(c *Ctx) {
+		src, err := os.ReadFile(os.Getenv("TA_MRO"))
+		if err != nil {
+			fatal("%v", err)
+		}
+		env, err := tbSetup(c)
+		if err != nil {
+			fatal("%v", err)
+		}
+		spec := &TBSpec{Name: "dbg", Src: string(src), Cores: 4, MemGB: 4, Vdr: os.Getenv("TA_VDR"), Strict: "error"}
+		spec.Control.SleepMs = [2]int{20, 120}
+		for _, s := range strings.Split(os.Getenv("TB_SIGNALS"), ",") {
+			if i := strings.Index(s, "@"); i > 0 {
+				ms, _ := strconv.Atoi(s[i+1:])
+				spec.Signals = append(spec.Signals, TBSignal{AfterMs: ms, Sig: s[:i]})
+			}
+		}
+		if s := os.Getenv("TB_FAULT"); s != "" {
+			i := strings.LastIndex(s, ":")
+			spec.Control.Faults = map[string]tbFault{s[:i]: {Kind: s[i+1:], Once: true}}
+		}
+		res := env.Run(spec, c.Rng)
+		for i, inc := range res.Incs {
+			fmt.Fprintf(os.Stderr, "incarnation %d: exit=%d signal=%s lock_left=%v timeout=%v\n", i, inc.ExitCode, inc.Signal, inc.LockLeft, inc.TimedOut)
+			if os.Getenv("TA_QUIET") == "" {
+				fmt.Fprintln(os.Stderr, inc.Output)
+			}
+		}
+		for _, iv := range tbIntervals(res.Log) {
+			fmt.Fprintf(os.Stderr, "%s %d..%d thr=%g mem=%g %s\n", iv.Job, iv.Start%1e10/1e6, iv.End%1e10/1e6, iv.Threads, iv.MemGB, iv.Outcome)
+		}
+		fmt.Fprintln(os.Stderr, "final:", res.Final, "outs:", string(res.TopOuts))
+	})
+}
